@@ -54,7 +54,7 @@ ASSUMPTIONS = [
     '1500*(len+1)+5000 => hang:step-budget; in between => counted inconclusive. Time is only a watchdog (20 s of CPU per call, 8x the slowest ordinary call, '
     'the shard wall clock): a fired watchdog makes the run inconclusive (floor shards_without_unexplained_watchdog) unless a '
     'growth experiment explains it: the same grammar text cut one character shorter at a time shows CPU time growing >= 1.35x '
-    'per character over >= 4 consecutive steps (ratios, not absolute times) => hang:superlinear@<innermost tatsu function>',
+    'per character (or >= 1.35^2 per two characters) over >= 4 consecutive steps (ratios, not absolute times) => hang:superlinear@<innermost tatsu function>',
     'recursion limit 6000 (vt.shard); bracket nesting of the generated grammar texts stays below 30, so a RecursionError '
     'is unbounded recursion, not deep input; survivors of mutation may be recursive grammars: RecursionError / died heart in '
     'their follow-up parses belong to C03/C16 and are counted, not judged',
@@ -88,9 +88,9 @@ _QUICK_FLOORS = {
     'in_preflight_with_call_clock': 7000, 'in_buffer_with_call_clock': 5000, 'in_text:brace-words': 500,
     'gr_texts': 3000, 'gr_rejected_failure_judged': 1000, 'gr_compiled': 380, 'gr_templates': 160,
     'gr_shipped': 240, 'gr_mut:char': 750, 'gr_mut:token': 750, 'gr_followup_parses': 750,
-    'gr_budget_decisive': 1400, 'gr_nesting_probe': 2, 'shards_without_unexplained_watchdog': 16,
+    'gr_budget_decisive': 1400, 'gr_nesting_probe': 2, 'gr_pinned': 20, 'shards_without_unexplained_watchdog': 16,
 }
-_FIXED_THOROUGH = {'gr_texts': 64000, 'gr_nesting_probe': 12, 'shards_without_unexplained_watchdog': 96,
+_FIXED_THOROUGH = {'gr_pinned': 20, 'gr_texts': 64000, 'gr_nesting_probe': 12, 'shards_without_unexplained_watchdog': 96,
                    'gr_unterminated_constant_probe': 3}
 FLOORS = {
     'quick': dict(_QUICK_FLOORS),
@@ -911,15 +911,18 @@ def superlinear_series(text, settings, per_try=1.5, max_cut=48):
     if seq[:k] != measured or k < 5:        # all timeouts must be at the long end
         return None
     base = min(measured)                    # the cost of an ordinary compile of this text
-    run = 0
     best = 0
-    for a, b in zip(measured, measured[1:]):
-        if a - base >= 0.03:
-            if b - base >= 1.35 * (a - base):
-                run += 1
-                best = max(best, run)
-            else:
-                run = 0
+    for stride in (1, 2):                   # stride 2: the repeated unit is two characters (an escape pair)
+        for off in range(stride):
+            sub = measured[off::stride]
+            run = 0
+            for a, b in zip(sub, sub[1:]):
+                if a - base >= 0.03:
+                    if b - base >= 1.35 ** stride * (a - base):
+                        run += 1
+                        best = max(best, run)
+                    else:
+                        run = 0
     if best < 4:
         return None
     return [round(x, 2) for x in measured] + ['>%gs' % per_try] * (len(seq) - k)
@@ -929,11 +932,12 @@ FOLLOWUP_TEXTS = ['', 'a', 'a b', '+', 'a\r\nb', '\x00', 'true 1 x', '1.+5', 'a'
                   '{m} {n}', '{n}{n} a']
 
 
-def followup(acc, model, gtext, rng, origin):
+def followup(acc, model, gtext, rng, origin, texts=None):
     """a compiled survivor parses two texts: only the exception class and the failure's own consistency are judged"""
     from tatsu.exceptions import FailedParse, HeartDied
-    for _ in range(2):
-        text = rng.choice(FOLLOWUP_TEXTS) if rng.random() < 0.6 else O.hostile_text(rng, 'a')[0][:200]
+    for text in (texts if texts is not None else (None, None)):
+        if text is None:
+            text = rng.choice(FOLLOWUP_TEXTS) if rng.random() < 0.6 else O.hostile_text(rng, 'a')[0][:200]
         heart = StepHeart(6000)
         pi = rng.random() < 0.5
         acc.evaluations += 1
@@ -1032,6 +1036,7 @@ def check_grammar_text(acc, text, origin, ops, rng, do_followup=True):
         acc.violation(sig, f'{what}; grammar text {short(t2, 240)!r}', wit)
     if model is not None and do_followup and len(text) < 1200:
         followup(acc, model, text, rng, origin)
+    return model
 
 
 def shrink_text(text, sig):
@@ -1059,6 +1064,41 @@ def shrink_text(text, sig):
     return cur
 
 
+def pinned():
+    """[(name, grammar text, follow-up input texts)] - run unmutated, once each, in every run (shard = index mod shards).
+    Each comes from a defect met on an earlier tree; the follow-up texts are parsed with the compiled grammar."""
+    bs = '\\'
+    interp = "start = n:/(?s).*/ v:`{n}` ;\n"
+    return [
+        # never-closed strings / regexes whose backslashes an ambiguous pattern can split in 2^n ways
+        ('unterminated-string-escaped-backslashes', "start = '" + bs * 2 * 24 + " ;\n", []),
+        ('unterminated-dqstring-escaped-quotes', 'start = "' + (bs + '"') * 40 + " ;\n", []),
+        ('unterminated-multiline-string-escapes', "start = '''" + (bs + 'a') * 36 + " ;\n", []),
+        ('unterminated-multiline-dqstring-escapes', 'start = """' + bs * 2 * 36 + " ;\n", []),
+        ('unterminated-regex-escaped-slashes', "start = /" + (bs + '/') * 36 + " ;\n", []),
+        ('unterminated-old-regex-escaped-slashes', "start = ?/" + (bs + '/') * 36 + " ;\n", []),
+        # verbose patterns: a line break ends a comment
+        ('verbose-pattern-comment-in-group', "start = /(?x)( # c\n a)/ $ ;\n", ['a', 'b', '']),
+        ('verbose-pattern-comment', "start = /(?x)a # c\n b/ $ ;\n", ['ab', 'a']),
+        ('verbose-whitespace-comment', "@@whitespace :: /(?x)( # c\n [ ])*/\nstart = 'a' 'b' $ ;\n", ['a b', 'ab']),
+        # constants: well-formed text that is not a literal value
+        ('const-unhashable-key', "start = `{[1]: 2}` ;\n", ['']),
+        ('const-set-in-set', "start = `{{1}}` 'a' ;\n", ['a']),
+        ('const-deep-unary', "start = a:/\\d+/ i:`" + '-' * 3000 + "1` $ ;\n", ['42']),
+        ('const-deep-not', "start = a:/\\d+/ i:`" + 'not ' * 3000 + "a` $ ;\n", ['42']),
+        ('nonrec:const-interpolates-hostile', interp, ['{[1]: 2}', '{{1}}', '-' * 5000 + '1', '(' * 400 + '1' + ')' * 400,
+                                                        'not ' * 3000 + '1', '9' * 5000, '[' * 3000, '{' * 50 + '}' * 50,
+                                                        "'" + bs * 30, '1e99999', '0x' + 'f' * 5000]),
+        # lone surrogates are text too
+        ('surrogate-in-token', "start = 'a\ud800' ;\n", ['a\ud800', 'a']),
+        ('surrogate-in-pattern', "start = /\udc00+/ ;\n", ['\udc00\udc00', 'a']),
+        ('surrogate-in-comment', "# \udfff\nstart = 'a' ;\n", ['a']),
+        ('surrogate-in-directive', "@@whitespace :: /\ud800/\nstart = 'a' 'b' ;\n", ['a\ud800b']),
+        ('surrogate-in-constant', "start = `\ud800` ;\n", ['']),
+        ('surrogate-at-end', "start = 'a' ;\ud800", []),
+    ]
+
+
 def hang_probe_text(depth, br='()'):
     return 'start = ' + br[0] * depth + "'a'" + br[1] * depth + ' ;'
 
@@ -1073,6 +1113,16 @@ def run_grammars(desc, acc):
         if sampled < 2 and ops and label == 'printed' and len(text) < 300:
             sampled += 1
             acc.sample({'part': 'grammars', 'origin': label, 'ops': ops, 'text': text})
+    pins = pinned()
+    for k, (name, text, texts) in enumerate(pins):
+        if k % desc['of'] != desc['shard']:
+            continue
+        acc.count('gr_pinned')
+        origin = {'mode': 'grammars', 'shard': desc['shard'], 'i': -10 - k, 'label': 'template:' + name}
+        model = check_grammar_text(acc, text, origin, [], random.Random(0), do_followup=False)
+        if model is not None:
+            for t in texts:
+                followup(acc, model, text, random.Random(0), origin, texts=[t])
     if desc['shard'] in (1, 2) or (desc['tier'] == 'thorough' and desc['shard'] % 16 in (1, 2)):
         # bracket nesting on one line: packrat memoization is what keeps this linear
         text = hang_probe_text(9 + desc['shard'] // 16, '()' if desc['shard'] % 16 == 1 else '{}')
